@@ -377,6 +377,33 @@ u8, u16, u32, u48 = U(8), U(16), U(32), U(48)
 c8, c16, rest = B(0, 255), B(0, 65535), B()
 
 
+def alt_route(k, v, i):
+    """the same field value handed to the constructor in another accepted form (bytearray, text, ipaddress object,
+    a single string instead of a sequence); `None` = no other form"""
+    import ipaddress
+
+    if isinstance(k, B):
+        return bytearray(v)
+    if isinstance(k, (NM, NMABS)):
+        if v.is_absolute() and all(0x21 <= x <= 0x7E and x not in b'"().;\\@$' for l in v.labels for x in l):
+            # text without the final dot is completed with the root by the constructors (`_as_name`)
+            return v.to_text(omit_final_dot=(i % 2 == 0 and len(v.labels) > 1))
+        return None
+    if isinstance(k, IP4) and len(v) == 4:
+        return dns.ipv4.inet_ntoa(v) if i % 2 else ipaddress.IPv4Address(v)
+    if isinstance(k, IP6) and len(v) == 16:
+        return dns.ipv6.inet_ntoa(v) if i % 2 else ipaddress.IPv6Address(v)
+    if isinstance(k, HEX64) and len(v) == 8:
+        return ":".join(v[j:j + 2].hex() for j in range(0, 8, 2))
+    if isinstance(k, STRINGS):
+        if len(v) == 1:
+            return v[0]
+        if all(all(x < 0x80 for x in e) for e in v):
+            return [e.decode("ascii") for e in v]
+        return list(v)
+    return None
+
+
 class Spec:
     """plain type: tree = tuple of the fields in wire order (a single field is the tree itself)"""
 
@@ -401,6 +428,19 @@ class Spec:
             raise ValueError("arity")
         kw = {a: k.from_tree(v) for (a, k), v in zip(self.fields, vals)}
         return cls(rdclass, rdtype, **kw)
+
+    def build_alt(self, cls, rdclass, rdtype, t, salt):
+        """the same value through other accepted argument forms; None when there is none"""
+        vals = t if len(self.fields) > 1 else (t,)
+        kw, changed = {}, False
+        for i, ((a, k), v) in enumerate(zip(self.fields, vals)):
+            alt = alt_route(k, v, i + salt) if (i + salt) % 3 != 2 else None
+            if alt is None:
+                kw[a] = k.from_tree(v)
+            else:
+                kw[a] = alt
+                changed = True
+        return cls(rdclass, rdtype, **kw) if changed else None
 
     def gen_bad(self, rng, env):
         """a tree the constructor must reject (None if this type has no such thing)"""
@@ -600,6 +640,9 @@ class Custom:
     def gen_raw(self, rng, env):
         return None
 
+    def build_alt(self, cls, rdclass, rdtype, t, salt):
+        return None
+
 
 def gw_raw(rng, env):
     """(type octet, payload) of a gateway/relay field, type and payload not necessarily matching"""
@@ -706,6 +749,12 @@ class HIP(Custom):
     def gen_bad(self, rng, env):
         hit = g_bytes(rng, n=256)
         return ((256, 1, 1), hit, b"k", [])
+
+    def build_alt(self, cls, rdclass, rdtype, t, salt):
+        (lh, alg, lk), hit, key, servers = t
+        if len(servers) == 1:
+            return cls(rdclass, rdtype, bytearray(hit), alg, bytearray(key), servers[0])
+        return cls(rdclass, rdtype, bytearray(hit), alg, bytearray(key), tuple(servers))
 
     def gen_raw(self, rng, env):
         hit, key = g_bytes(rng, 0, 40), g_bytes(rng, 0, 300)
@@ -1096,6 +1145,13 @@ class SVCB(Custom):
     def tree(self, rd):
         return (int(rd.priority), rd.target, [(int(k), self.ptree(int(k), rd.params[k])) for k in sorted(rd.params)])
 
+    def build_alt(self, cls, rdclass, rdtype, t, salt):
+        """the same parameters inserted in descending key order, mandatory keys listed descending"""
+        prio, target, ps = t
+        if len(ps) < 2 and not any(k == 0 and len(v) > 1 for k, v in ps):
+            return None
+        return self.build(cls, rdclass, rdtype, (prio, target, [(k, (v[::-1] if k == 0 else v)) for k, v in ps[::-1]]))
+
     def build(self, cls, rdclass, rdtype, t):
         import dns.rdtypes.svcbbase as sb
 
@@ -1459,9 +1515,98 @@ def impl_decode(c, t, buf, cur, rdlen, origin):
     """from_wire through an explicit parser, so that exact consumption can be checked independently of restrict_to"""
     parser = dns.wire.Parser(buf, cur)
     end_before = parser.end
-    with parser.restrict_to(rdlen):
-        rd = dns.rdata.from_wire_parser(c, t, parser, origin)
+    try:
+        with parser.restrict_to(rdlen):
+            rd = dns.rdata.from_wire_parser(c, t, parser, origin)
+    except Exception as e:
+        # state left behind after an error: the limit of the enclosing parser must be back in place
+        e.c02_end_restored = parser.end == end_before
+        raise
     return rd, parser.current, parser.end == end_before
+
+
+def tweak(tree):
+    """a tree differing from `tree` in one non-name leaf (first integer or octet string found), or None"""
+    done = [False]
+
+    def go(x):
+        if done[0]:
+            return x
+        if isinstance(x, bool) or x is None or isinstance(x, dns.name.Name):
+            return x
+        if isinstance(x, int):
+            done[0] = True
+            return x ^ 1
+        if isinstance(x, (bytes, bytearray)):
+            if len(x) == 0:
+                return x
+            done[0] = True
+            return bytes(x[:-1]) + bytes([x[-1] ^ 0x01])
+        if isinstance(x, tuple):
+            return tuple(go(y) for y in x)
+        if isinstance(x, list):
+            return [go(y) for y in x]
+        return x
+
+    out = go(tree)
+    return out if done[0] else None
+
+
+def derel(tree, origin):
+    if isinstance(tree, dns.name.Name):
+        return tree if tree.is_absolute() else tree.concatenate(origin)
+    if isinstance(tree, tuple):
+        return tuple(derel(x, origin) for x in tree)
+    if isinstance(tree, list):
+        return [derel(x, origin) for x in tree]
+    return tree
+
+
+def extra_value_oracle(ctx, case, rep, spec, cls, c, t, tree, rd, w, origin, sigt, tname):
+    """second routes that must agree with the first: other argument forms, the generic form, == / != on records
+    that differ"""
+    salt = len(w)
+    # (a) the same value through other accepted constructor argument forms
+    try:
+        alt = spec.build_alt(cls, c, t, tree, salt)
+    except Exception as e:  # noqa: BLE001
+        alt = None
+        ctx.fail(f"C02/constructor/alternate-argument-form-rejected:{type(e).__name__}/{sigt}",
+                 f"{tname} {case['tree']}: a value accepted as bytes/Name/tuple is rejected as bytearray/str/ipaddress/single item", rep)
+    if alt is not None:
+        ctx.count("val.alt-route")
+        if alt.to_wire(origin=origin) != w or not (alt == rd) or alt != rd:
+            ctx.fail(f"C02/constructor/alternate-argument-form-differs/{sigt}",
+                     f"{tname} {case['tree']}: the same value given in another accepted form encodes or compares differently", rep)
+    # (b) RFC 3597 generic form of a known record
+    try:
+        g = rd.to_generic(origin)
+        if not isinstance(g, dns.rdata.GenericRdata) or bytes(g.data) != w or g.to_wire() != w or g.rdtype != rd.rdtype or g.rdclass != rd.rdclass:
+            ctx.fail(f"C02/to_generic/differs/{sigt}", f"{tname} {case['tree']}: to_generic(origin) does not carry to_wire(origin)", rep)
+    except Exception as e:  # noqa: BLE001
+        ctx.fail(f"C02/to_generic/raises:{type(e).__name__}/{sigt}", f"{tname} {case['tree']}: to_generic(origin) raised", rep)
+    # (c) a record differing in one field is not equal
+    tw = tweak(tree)
+    if tw is not None:
+        try:
+            rd_b = spec.build(cls, c, t, tw)
+            w_b = rd_b.to_wire(origin=origin)
+        except Exception:  # noqa: BLE001
+            rd_b = None
+        if rd_b is not None and w_b != w:
+            ctx.count("val.neq-checked")
+            if rd_b == rd or not (rd_b != rd):
+                ctx.fail(f"C02/eq/different-records-equal/{sigt}", f"{tname}: {case['tree']} == {dump(tw)}", rep)
+    # (d) relative names are not equal to their absolute completion
+    if origin is not None and any(not n.is_absolute() for n in names_in(tree)):
+        try:
+            rd_abs = spec.build(cls, c, t, derel(tree, origin))
+        except Exception:  # noqa: BLE001
+            rd_abs = None
+        if rd_abs is not None:
+            ctx.count("val.rel-vs-abs")
+            if rd_abs == rd or not (rd_abs != rd):
+                ctx.fail(f"C02/eq/relative-equals-absolute/{sigt}", f"{tname} {case['tree']}: a record with relative names == its absolute completion", rep)
 
 
 def eval_case(ctx: Ctx, case: dict):
@@ -1527,6 +1672,7 @@ def _eval_case(ctx: Ctx, case: dict):
                 ctx.fail(f"C02/to_wire/file-differs/{sigt}", f"{tname}: to_wire(file) != to_wire()", rep)
         except Exception as e:  # noqa: BLE001
             ctx.fail(f"C02/to_wire/raises/{sigt}", f"to_wire(file) raised {type(e).__name__} for {tname}", rep)
+        extra_value_oracle(ctx, case, rep, spec, cls, c, t, tree, rd, w, origin, sigt, tname)
         # ---- direct oracle: encode -> decode -> equal, byte-identical re-encoding
         try:
             rd2 = dns.rdata.from_wire(c, t, w, 0, len(w), origin)
@@ -1579,16 +1725,30 @@ def _eval_case(ctx: Ctx, case: dict):
             impl = "err"
         except dns.exception.DNSException as e:
             impl = "err"
-            ctx.count("wire.err-other-dnsexception:" + type(e).__name__)
+            ctx.fail(f"C02/from_wire/error-not-FormError:{type(e).__name__}/{sigt}",
+                     f"from_wire({tname}, {rdata.hex()}) reports {type(e).__name__}, which is not a format error", rep)
         except Exception as e:  # noqa: BLE001
             impl = "FOREIGN " + type(e).__name__
             ctx.fail(f"C02/from_wire/foreign-exception:{type(e).__name__}/{sigt}", f"from_wire({tname}, {rdata.hex()}) raised {e!r}", rep)
+        if not post:
+            # a declared RDATA length reaching beyond the buffer is a format error, whatever the type
+            over = 1 + len(rdata) % 3
+            try:
+                dns.rdata.from_wire(c, t, buf, len(pfx), len(rdata) + over, origin)
+                ctx.fail(f"C02/from_wire/rdlen-beyond-buffer-accepted/{sigt}", f"{tname}: rdlen {len(rdata) + over} with {len(rdata)} octets available was accepted", rep)
+            except dns.exception.FormError:
+                pass
+            except Exception as e:  # noqa: BLE001
+                ctx.fail(f"C02/from_wire/rdlen-beyond-buffer:{type(e).__name__}/{sigt}", f"{tname}: rdlen beyond the buffer raised {type(e).__name__}", rep)
         # the same decoding through an explicit parser: position and limit after the call are observable
         cur, end_ok, rdp = None, True, None
         try:
             rdp, cur, end_ok = impl_decode(c, t, buf, len(pfx), len(rdata), origin)
-        except Exception:  # noqa: BLE001
+        except Exception as e:  # noqa: BLE001
             rdp = None
+            if getattr(e, "c02_end_restored", True) is False:
+                ctx.fail(f"C02/from_wire/parser-limit-not-restored-after-error/{sigt}",
+                         f"{tname} {rdata.hex()}: after the error the enclosing parser's end is still the RDATA end", rep)
         if (rd is None) != (rdp is None) and not impl.startswith("FOREIGN"):
             ctx.fail(f"C02/from_wire/differs-from-restricted-parser/{sigt}",
                      f"{tname} {rdata.hex()}: from_wire {'accepts' if rd is not None else 'rejects'}, from_wire_parser under restrict_to(rdlen) does not", rep)
